@@ -37,11 +37,12 @@ inline json exact_num(double x, long den) {
     return dstr(x);
 }
 
+inline FILE*& out_file() { static FILE* f = stdout; return f; }      // PV_OUT=<prefix>: every rank writes <prefix>.<rank>
 inline void emit(const json& j) {
     std::string s = j.dump();
     s.push_back('\n');
-    fwrite(s.data(), 1, s.size(), stdout);
-    fflush(stdout);
+    fwrite(s.data(), 1, s.size(), out_file());
+    fflush(out_file());
 }
 
 // pomerol prints progress to std::cout; keep stdout for ndjson only
